@@ -15,6 +15,7 @@ import (
 	"time"
 
 	"github.com/edgexfoundry/device-sdk-go/v4/pkg/interfaces/mocks"
+	dsModels "github.com/edgexfoundry/device-sdk-go/v4/pkg/models"
 	edgexErr "github.com/edgexfoundry/go-mod-core-contracts/v4/errors"
 	"github.com/edgexfoundry/go-mod-core-contracts/v4/models"
 )
@@ -328,6 +329,36 @@ func TestVerifC16(t *testing.T) {
 			go func() {
 				autoDiscover(ctx, discoverParams{subnets: strings.Split(f[3], ","), asyncLimit: limit,
 					timeout: 300 * time.Millisecond, scanPort: "1"})
+				close(ret)
+			}()
+			time.Sleep(time.Duration(ms) * time.Millisecond)
+			cancel()
+			ok := false
+			select {
+			case <-ret:
+				ok = true
+			case <-time.After(5 * time.Second):
+			}
+			driver.lc = old
+			fmt.Fprintf(w, "%v\n", ok)
+		case "drvcancel":
+			// the same through the Driver's own entry point: Driver.discover(ctx) with the configured maximum duration
+			// <maxsec> (0 = none), cancelled by its caller after <ms>: "true" iff it returns within 5 s of the cancellation
+			limit, _ := strconv.Atoi(f[1])
+			ms, _ := strconv.Atoi(f[2])
+			maxSec, _ := strconv.Atoi(f[4])
+			var lmu sync.Mutex
+			var dbg []string
+			old := driver.lc
+			driver.lc = c16Logger{mu: &lmu, debug: &dbg}
+			devCh := make(chan []dsModels.DiscoveredDevice, 4)
+			d := &Driver{lc: driver.lc, svc: driver.svc, deviceCh: devCh, activeDevices: map[string]*LLRPDevice{}, done: make(chan struct{}),
+				config: &ServiceConfig{AppCustom: CustomConfig{DiscoverySubnets: f[3], ProbeAsyncLimit: limit, ProbeTimeoutSeconds: 1,
+					ScanPort: "1", MaxDiscoverDurationSeconds: maxSec}}}
+			ctx, cancel := context.WithCancel(context.Background())
+			ret := make(chan struct{})
+			go func() {
+				d.discover(ctx)
 				close(ret)
 			}()
 			time.Sleep(time.Duration(ms) * time.Millisecond)
